@@ -424,6 +424,13 @@ func (c *ClientConn) openUpstream(ctx context.Context, qoS message.QoS, streamID
 	c.upstreams.mu.Lock()
 	defer c.upstreams.mu.Unlock()
 
+	// the broker hands out an alias again once its stream is closed: a stream that still claims this alias here
+	// (its close response has not been processed yet) must not take the new stream's entries with it
+	for id, alias := range c.upstreams.aliases {
+		if alias == streamIDAlias && id != streamID {
+			delete(c.upstreams.aliases, id)
+		}
+	}
 	c.upstreams.aliases[streamID] = streamIDAlias
 
 	ackCh := make(chan *message.UpstreamChunkAck, 1024)
